@@ -661,6 +661,49 @@ func main() {
 	}
 	w("]")
 	w("")
+	// the same lock operations, tokenised for the nesting analysis: (mutex, code) with
+	// 1 = acquire (Lock / RLock), 2 = release (Unlock / RUnlock), 3 = deferred release, 4 = a closure opens, 5 = it closes
+	w("/-- (type, method, tokenised mutex operations, does it reach the dagaz spatial partition) -/")
+	w("def lockOps : List (String × String × List (String × Nat) × Bool) := [")
+	for i, l := range lfs {
+		var toks []string
+		for _, op := range l.ops {
+			code, name := 0, op
+			switch {
+			case op == "closure{":
+				code, name = 4, ""
+			case op == "}":
+				code, name = 5, ""
+			case strings.HasPrefix(op, "defer "):
+				code = 3
+				name = strings.TrimPrefix(op, "defer ")
+				name = name[:strings.LastIndex(name, ".")]
+			case strings.HasSuffix(op, ".Lock") || strings.HasSuffix(op, ".RLock"):
+				code = 1
+				name = op[:strings.LastIndex(op, ".")]
+			default:
+				code = 2
+				name = op[:strings.LastIndex(op, ".")]
+			}
+			toks = append(toks, fmt.Sprintf("(%s, %d)", lstr(name), code))
+		}
+		grid := false
+		for _, c := range l.calls {
+			if strings.HasPrefix(c, "m.state.SpatialPartition") {
+				grid = true
+			}
+		}
+		if l.typ == "dagaz.Module" && l.method == "Init" {
+			grid = true
+		}
+		sep := ","
+		if i == len(lfs)-1 {
+			sep = ""
+		}
+		w("  (%s, %s, [%s], %v)%s", lstr(l.typ), lstr(l.method), strings.Join(toks, ", "), grid, sep)
+	}
+	w("]")
+	w("")
 	// every call of SequentialIDGenerator.Reuse: "Type.method:receiver expression"
 	var reuse []string
 	for _, l := range lfs {
